@@ -4,10 +4,18 @@ set -e
 cd "$(dirname "$0")"
 export GOFLAGS=-mod=mod GOPROXY=off
 unset GOTOOLCHAIN GOSUMDB
+REPO="${VERIF_REPO:-/repo}"
 mkdir -p harness/bin evidence replays
-cp /repo/go.sum harness/go.sum
-(cd harness && go build -tags verif -o bin/ ./cmd/...)
+cp "$REPO/go.sum" harness/go.sum
+MODFLAG=""
+if [ "$(realpath "$REPO")" != "/repo" ]; then
+  sed "s#=> /repo#=> $(realpath "$REPO")#" harness/go.mod > harness/go.scratch.mod
+  cp "$REPO/go.sum" harness/go.scratch.sum
+  MODFLAG="-modfile=go.scratch.mod"
+fi
+(cd harness && go build -tags verif $MODFLAG -o bin/ ./cmd/...)
 rm -rf lean/UtlsVerif/Gen && mkdir -p lean/UtlsVerif/Gen
 harness/bin/gen lean/UtlsVerif/Gen
+python3 tools/gendrv.py
 (cd lean && lake build)
 echo setup-ok
